@@ -318,6 +318,23 @@ def run(R):
         if not okl:
             R.viol("C18.merge.always", "merge-skipped:%s" % fn.split("::")[-2], "%s can return without walking the other side's entries (an early return before the merge loop)" % fn, mb, mb.lines[0])
         R.inst("C18.merge.always", "K5 must-follow", "%s always walks the other side's entries" % fn.split("::")[-2], len(nxt), okl)
+    # an address handed to insert_addr is never dropped: it is merged into the entry already held or pushed (no cap inside the merge —
+    # the bounds are perform_cleanup's job, after the merge)
+    ia = R.body("C18.merge.insert", AB + "BootstrapAddresses::insert_addr")
+    if ia is not None:
+        prep(ia)
+        g3 = cfg_of(ia)
+        keep = set(CallSink(AB + "BootstrapAddr::sync", "alloc::vec::Vec::push").blocks(ia))
+        rets3 = {b["id"] for b in ia.blocks if b["term"]["k"] == "return" and not b["cleanup"]}
+        oki = bool(keep) and not (g3.reach((0,), avoid=keep) & rets3)
+        if not oki:
+            R.viol("C18.merge.insert", "insert-dropped", "BootstrapAddresses::insert_addr can return without merging or pushing the address it was given: a merge can lose an address known to one side", ia, ia.lines[0])
+        R.inst("C18.merge.insert", "K5 must-follow", "insert_addr always syncs into the held entry or pushes the new address", len(keep), oki)
+    # ... and the only functions that add entries are the ones whose bounds are re-established afterwards: add_addr (clean-up on every
+    # inserting path) and the merge functions (sync_and_flush_to_disk cleans up after the merge)
+    R.who_may_call("C18.insert.who", [AB + "BootstrapAddresses::insert_addr", CD + "::insert"],
+                   [BCS + "::add_addr", CD + "::insert", CD + "::sync", AB + "BootstrapAddresses::sync", AB + "BootstrapAddresses::insert_addr"], floor=2,
+                   descr="addresses enter the cache only through add_addr and the merge functions (whose bounds are re-established by perform_cleanup)")
     # the cache file is read whole
     lc = R.body("C18.load.whole", BCS + "::load_cache_data")
     if lc is not None:
